@@ -533,3 +533,269 @@ def guarded_store_blocks(body, arr):
             out.append((snapshot if snapshot is not None else conds, stmts))
     go(body, [])
     return out
+
+
+# ---------------------------------------------------------------------------
+# spelling-independent kernel bodies
+
+def _subst_names_x(x, mapping: dict):
+    """Copy of an IR tree with `name` nodes replaced by expressions."""
+    if isinstance(x, X):
+        if x.k == "name" and x.a[0] in mapping:
+            return mapping[x.a[0]]
+        return X(x.k, *[_subst_names_x(v, mapping) for v in x.a], line=x.line)
+    if isinstance(x, list):
+        return [_subst_names_x(v, mapping) for v in x]
+    if isinstance(x, tuple):
+        return tuple(_subst_names_x(v, mapping) for v in x)
+    if isinstance(x, dict):
+        return {k: _subst_names_x(v, mapping) for k, v in x.items()}
+    return x
+
+
+def inline_element_locals(body: list) -> list:
+    """Scalars that only hoist an element read (`x_i = x[i]`, also as part of a
+    tuple assignment), assigned in exactly one statement and never updated,
+    are replaced by the element they stand for."""
+    defs, bad = {}, set()
+    for st in walk(body):
+        if not isinstance(st, X):
+            continue
+        if st.k == "assign":
+            for t in st.a[0]:
+                pairs = []
+                if t.k == "name":
+                    pairs = [(t, st.a[1])]
+                elif t.k == "tuple" and st.a[1].k == "tuple" and \
+                        len(t.a[0]) == len(st.a[1].a[0]):
+                    pairs = list(zip(t.a[0], st.a[1].a[0]))
+                elif t.k == "tuple":
+                    bad |= {e.a[0] for e in t.a[0] if e.k == "name"}
+                for n_, v_ in pairs:
+                    if n_.k == "name":
+                        defs.setdefault(n_.a[0], []).append(v_)
+        elif st.k == "aug" and st.a[1].k == "name":
+            bad.add(st.a[1].a[0])
+        elif st.k == "for":
+            bad |= names_in(st.a[0])
+    mp = {}
+    for n_, vs in defs.items():
+        if n_ in bad or len(vs) != 1:
+            continue
+        v = vs[0]
+        if v.k == "index" and v.a[0].k == "name" and all(
+                i.k in ("name", "num") or (i.k == "bin" and i.a[0] in "+-")
+                for i in v.a[1]) and n_ not in names_in(v):
+            # the indices must not be reassigned scalars themselves (loop
+            # variables and parameters are fine)
+            if not (names_in(v.a[1]) & set(defs)):
+                mp[n_] = v
+    if not mp:
+        return body
+
+    def strip(stmts):
+        out = []
+        for st in stmts:
+            if st.k == "assign" and len(st.a[0]) == 1:
+                t = st.a[0][0]
+                if t.k == "name" and t.a[0] in mp:
+                    continue
+                if t.k == "tuple" and st.a[1].k == "tuple" and \
+                        len(t.a[0]) == len(st.a[1].a[0]):
+                    keep = [(a_, b_) for a_, b_ in zip(t.a[0], st.a[1].a[0])
+                            if not (a_.k == "name" and a_.a[0] in mp)]
+                    if not keep:
+                        continue
+                    if len(keep) < len(t.a[0]):
+                        for a_, b_ in keep:
+                            out.append(X("assign", [a_], b_, line=st.line))
+                        continue
+            if st.k == "for":
+                st = X("for", st.a[0], st.a[1], strip(st.a[2]), *st.a[3:], line=st.line)
+            elif st.k == "while":
+                st = X("while", st.a[0], strip(st.a[1]), *st.a[2:], line=st.line)
+            elif st.k == "if":
+                st = X("if", [(c, strip(b)) for c, b in st.a[0]], strip(st.a[1]),
+                       line=st.line)
+            out.append(st)
+        return out
+    return _subst_names_x(strip(body), mp)
+
+
+def _and(conds, line=0):
+    conds = list(conds)
+    return conds[0] if len(conds) == 1 else X("boolop", "and", conds, line=line)
+
+
+def normalise_scans(body: list) -> list:
+    """Two equivalent spellings are brought to one form, recursively:
+
+      if C: continue            ->   if <not C>: <rest of the block>
+      <rest of the block>
+
+      ok = True                 ->   k = a
+      for k in range(a, b):          while <C> and k < b:
+          if not <C>:                    k += 1
+              ok = False; break      if k == b: BODY
+      if ok: BODY
+    """
+    def truthy(v):
+        return (v.k == "bool" and v.a[0] is True) or pp(v) in ("True", "1")
+
+    def falsy(v):
+        return (v.k == "bool" and v.a[0] is False) or pp(v) in ("False", "0")
+
+    def block(stmts):
+        stmts = [one(st) for st in stmts]
+        # flag scans
+        out = []
+        i = 0
+        while i < len(stmts):
+            st = stmts[i]
+            done = False
+            if st.k == "assign" and len(st.a[0]) == 1 and st.a[0][0].k == "name" \
+                    and truthy(st.a[1]) and i + 1 < len(stmts):
+                flag = st.a[0][0].a[0]
+                lp = stmts[i + 1]
+                if lp.k == "for" and lp.a[0].k == "name" and lp.a[1].k == "call" and \
+                        pp(lp.a[1].a[0]) == "range" and len(lp.a[1].a[1]) == 2 and \
+                        len(lp.a[2]) == 1 and lp.a[2][0].k == "if" and \
+                        len(lp.a[2][0].a[0]) == 1 and not lp.a[2][0].a[1]:
+                    cond, b = lp.a[2][0].a[0][0]
+                    if len(b) == 2 and b[1].k == "break" and b[0].k == "assign" and \
+                            pp(b[0].a[0][0]) == flag and falsy(b[0].a[1]):
+                        k_ = lp.a[0]
+                        lo, hi = lp.a[1].a[1]
+                        keep = _neg_conj(cond)
+                        rest = stmts[i + 2:]
+                        use = [j for j, r in enumerate(rest) if flag in names_in(r)]
+                        if len(use) == 1 and rest[use[0]].k == "if" and \
+                                len(rest[use[0]].a[0]) == 1 and \
+                                pp(rest[use[0]].a[0][0][0]) == flag and \
+                                not rest[use[0]].a[1]:
+                            u = rest[use[0]]
+                            new_if = X("if", [(X("cmp", "==", k_, hi, line=u.line),
+                                               u.a[0][0][1])], [], line=u.line)
+                            out.append(X("assign", [k_], lo, line=st.line))
+                            out.append(X("while", _and(keep + [X("cmp", "<", k_, hi,
+                                                                 line=lp.line)], lp.line),
+                                         [X("aug", "+", k_, X("num", 1), line=lp.line)],
+                                         line=lp.line))
+                            out.extend(rest[:use[0]])
+                            out.append(new_if)
+                            out.extend(rest[use[0] + 1:])
+                            return guard(out)
+            out.append(st)
+            i += 1
+        return guard(out)
+
+    def guard(stmts):
+        for i, st in enumerate(stmts):
+            if st.k == "if" and len(st.a[0]) == 1 and not st.a[1] and \
+                    len(st.a[0][0][1]) == 1 and st.a[0][0][1][0].k == "continue" and \
+                    i + 1 < len(stmts):
+                rest = guard(stmts[i + 1:])
+                return stmts[:i] + [X("if", [(_and(_neg_conj(st.a[0][0][0]), st.line),
+                                              rest)], [], line=st.line)]
+        return stmts
+
+    def one(st):
+        if st.k == "for":
+            return X("for", st.a[0], st.a[1], block(st.a[2]), *st.a[3:], line=st.line)
+        if st.k == "while":
+            return X("while", st.a[0], block(st.a[1]), *st.a[2:], line=st.line)
+        if st.k == "if":
+            return X("if", [(c, block(b)) for c, b in st.a[0]], block(st.a[1]),
+                     line=st.line)
+        return st
+    return block(body)
+
+
+def inline_value_helpers(f, depth=2):
+    """Body of the kernel `f` in which calls `H(args)` of helpers defined in the
+    same module are replaced by the helper's statements: H must end in its only
+    `return e`; its parameters are replaced by the argument expressions
+    (names, numbers and +/- of them - evaluated once in both spellings), its
+    locals get fresh names and declared initial values become assignments.
+    The rules then see the loops the un-factored kernel consisted of."""
+    mod = f.module
+    counter = [0]
+
+    def simple(a):
+        return a.k in ("name", "num") or (a.k == "bin" and a.a[0] in "+-" and
+                                          simple(a.a[1]) and simple(a.a[2]))
+
+    def expand_call(c):
+        """-> (pre statements, value expression) or None"""
+        if not (c.k == "call" and c.a[0].k == "name" and not c.a[2]):
+            return None
+        h = mod.funcs.get(c.a[0].a[0])
+        if h is None or h is f or len(h.args) != len(c.a[1]) or not h.body:
+            return None
+        rets = [r for r in walk(h.body) if isinstance(r, X) and r.k == "return"]
+        if len(rets) != 1 or h.body[-1] is not rets[0] or rets[0].a[0] is None:
+            return None
+        if not all(simple(a) for a in c.a[1]):
+            return None
+        counter[0] += 1
+        k = counter[0]
+        mp = {pn: a for (pn, _), a in zip(h.args, c.a[1])}
+        assigned = set()
+        for st in walk(h.body):
+            if isinstance(st, X) and st.k == "assign":
+                for t in st.a[0]:
+                    for e in ([t] if t.k == "name" else t.a[0] if t.k == "tuple" else []):
+                        if e.k == "name":
+                            assigned.add(e.a[0])
+            elif isinstance(st, X) and st.k == "aug" and st.a[1].k == "name":
+                assigned.add(st.a[1].a[0])
+            elif isinstance(st, X) and st.k == "for":
+                assigned |= names_in(st.a[0])
+        if assigned & set(mp):
+            return None             # a parameter is rebound in the helper
+        for n_ in set(h.locals) | assigned:
+            mp[n_] = X("name", f"_h{k}_{n_}")
+        pre = [X("assign", [X("name", f"_h{k}_{n_}")], init, line=ln)
+               for n_, (t, init, ln) in h.locals.items() if init is not None]
+        pre += _subst_names_x(h.body[:-1], mp)
+        return pre, _subst_names_x(rets[0].a[0], mp)
+
+    def rewrite_expr(e, pre):
+        if isinstance(e, X):
+            if e.k == "call":
+                r = expand_call(e)
+                if r is not None:
+                    pre.extend(r[0])
+                    return r[1]
+            return X(e.k, *[rewrite_expr(v, pre) for v in e.a], line=e.line)
+        if isinstance(e, list):
+            return [rewrite_expr(v, pre) for v in e]
+        if isinstance(e, tuple):
+            return tuple(rewrite_expr(v, pre) for v in e)
+        if isinstance(e, dict):
+            return {k_: rewrite_expr(v, pre) for k_, v in e.items()}
+        return e
+
+    def block(stmts):
+        out = []
+        for st in stmts:
+            if st.k == "for":
+                st = X("for", st.a[0], st.a[1], block(st.a[2]), *st.a[3:], line=st.line)
+            elif st.k == "while":
+                st = X("while", st.a[0], block(st.a[1]), *st.a[2:], line=st.line)
+            elif st.k == "if":
+                st = X("if", [(c, block(b)) for c, b in st.a[0]], block(st.a[1]),
+                       line=st.line)
+            elif st.k in ("assign", "aug", "expr", "return"):
+                pre = []
+                st = rewrite_expr(st, pre)
+                out.extend(pre)
+            out.append(st)
+        return out
+    body = f.body
+    for _ in range(depth):
+        n0 = counter[0]
+        body = block(body)
+        if counter[0] == n0:
+            break
+    return body
